@@ -132,7 +132,7 @@ func init() {
 	register(&Prop{
 		ID:         "C17",
 		Title:      "The SDK v1 and SDK v2 clients are behaviourally equivalent",
-		Decided:    "agreement of the two hand-duplicated adapters, method by method: (R1) for every operation implemented by both clients the normalised summaries agree – the set of guard events (lock, deferred unlock, failure test, request validation, placeholder validation, table lookup) and the core calls made; events present in only one client are reported one by one; (R2) every error code the core can emit has a case in the v2 error mapper that turns it into a typed SDK/smithy error (v1 callers get an awserr.Error for the same codes by construction); (R3) the description mappers cover the same fields in both clients; (R4) optional request pointers are never dereferenced without a nil test in either client; (R5) both clients implement the same set of operations; (R6) the arguments handed to the placeholder validation and the QueryInput built for searches have the same provenance in both clients.",
+		Decided:    "agreement of the two hand-duplicated adapters, method by method: (R1) for every operation implemented by both clients the normalised summaries agree – the set of guard events (lock, deferred unlock, failure test, request validation, placeholder validation, table lookup) and the core calls made; events present in only one client are reported one by one; (R2) every error code the core can emit has a case in the v2 error mapper that turns it into a typed SDK/smithy error (v1 callers get an awserr.Error for the same codes by construction); (R3) the description mappers cover the same fields in both clients; (R4) optional request pointers are never dereferenced without a nil test in either client; (R5) both clients implement the same set of operations; (R6) the arguments handed to the placeholder validation and the QueryInput built for searches have the same provenance in both clients; (R7) both adapters hand the shared engine the same internal value for the same logical attribute: S and N texts verbatim (= C10.R6) and, in the interface-based v2 conversions, the type-carrying field non-nil for every member case (= C10.R7) – an adapter-only difference here makes later expression evaluation succeed in one client and fail in the other.",
 		NotDecided: "value-level equality of the mapped outputs (C10), pagination keys (C04), and everything behind the shared core (identical by construction).",
 		Assumes:    []string{"ReturnValuesOnConditionCheckFailure exists only in SDK v2 (accepted difference)"},
 		Rules: []RuleDef{
@@ -142,6 +142,19 @@ func init() {
 			{ID: "R4", Desc: "optional request pointers are nil-tested before dereference (T-GUARD)", Run: c17R4},
 			{ID: "R5", Desc: "same set of operations (T-SIB)", Run: c17R5},
 			{ID: "R6", Desc: "validation arguments and QueryInput provenance agree (T-SIB over T-FLOW)", Run: c17R6},
+			{ID: "R7", Desc: "both adapters hand the engine the same value: texts verbatim, type field set for every member (= C10.R6, C10.R7b)", Run: func(e *Engine) {
+				before := len(e.obs)
+				c10R6(e)
+				c10R7(e)
+				kept := e.obs[:before]
+				for _, o := range e.obs[before:] {
+					if strings.HasPrefix(o.Construct, "v1.") || strings.HasPrefix(o.Construct, "v2.") {
+						o.Rule = "R7"
+						kept = append(kept, o)
+					}
+				}
+				e.obs = kept
+			}},
 		},
 	})
 }
